@@ -33,7 +33,7 @@ def needed (fs : Files) (rootData : Option Json) (tabs : Tabs) (cx : Cx) (n : CN
     | .node cont home src ptr typed _ =>
       (docNodes ++
       (match (srcJson fs rootData src).bind (fun j => rawAt j ptr) with
-       | some v => (enum 64 home src ptr n.kind v typed).map (fun x => { x with nat := typed || (cx == n.cx && n.nat) })
+       | some v => (enum 64 home src ptr n.kind v typed false).map (fun x => { x with nat := typed || (cx == n.cx && n.nat) })
        | none => []),
        [cont, home] ++ docCx)
     | _ => (docNodes, docCx)
@@ -65,13 +65,14 @@ def findObj (nodes : List CNode) (home : Cx) (src : String) (ptr : List String) 
   let i := nodes.findIdx (fun m => m.cx == home && m.src == src && m.ptr == ptr && m.kind == k && m.copy == cp)
   if i < nodes.length then some i else none
 
-def build (fs : Files) (rootData : Option Json) (tabs : Tabs) (rootCx : Cx) (rootSrc : String) (rootJ : Json) : Built :=
-  let (nodes0, cxs) := close fs rootData tabs 24 (enumDoc rootCx rootSrc rootJ) [rootCx]
+def build (fs : Files) (rootData : Option Json) (tabs : Tabs) (roots : List (Cx × String × Json)) : Built :=
+  let (nodes0, cxs) := close fs rootData tabs 24
+    (roots.foldl (fun acc (c, src, j) => addNodes acc (enumDoc c src j)) []) (dedup (roots.map (·.1)))
   -- a resolver works on a local copy of a target that is itself a reference
   let nodes := nodes0 ++ (nodes0.filter (fun n => n.ref.isSome)).map (fun n => { n with copy := true })
   let texts := dedup (nodes.filterMap (·.ref))
   let table : List Node := nodes.map (fun m =>
-      { kind := m.kind, ref := m.ref.bind (idxOf texts),
+      { kind := m.kind, empty := m.empty, ref := m.ref.bind (idxOf texts),
         kids := m.kids.filterMap (fun (p, k) => findObj nodes m.cx m.src p k false),
         home := (idxOf cxs m.cx).getD 0,
         orig := if m.copy then findObj nodes m.cx m.src m.ptr m.kind false else none })
@@ -100,7 +101,7 @@ def build (fs : Files) (rootData : Option Json) (tabs : Tabs) (rootCx : Cx) (roo
           | some ni => some (ci, ni)
           | none => (findObj nodes home src ptr k false).map (fun ni => (ci, ni)))
       | _ => none,
-    rewalk := fun _ t _ => match texts[t]? with
+    fragment := fun _ t _ => match texts[t]? with
       | some tx => tx.contains '#'
       | none => false,
     emptyTarget := fun l t k => match step l t k with
@@ -144,36 +145,44 @@ def groupRefs (l : List (String × Option Json)) : Json :=
 def parseFiles (j : Json) : Files :=
   (getArr j "files").map (fun f => (storeKey (getStr f "path"), getD f "json" Json.null))
 
-/-- request: {entry: "file"|"path"|"data", root: "<location>", files: [{path, json}]}
-    ("data": the root document is `files[0].json`, loaded without a location) -/
+/-- one load of a history -/
+structure LoadReq where
+  entry : String
+  root  : String
+  cx    : Cx
+  src   : String
+  j     : Json
+
+/-- request: {files: [{path, json, virtual?}], loads: [{entry: "file"|"path"|"uri"|"data", root: "<location>"}]} — the loads
+    are made one after the other on ONE Loader; a "data" load (at most one per history) takes the root document from a
+    `virtual` file, which is not part of the store. Short form for a single load: {entry, root, files} ("data": the
+    root document is `files[0].json`). -/
 def handle (j : Json) : Json :=
-  let entry := getStr j "entry"
-  let root := getStr j "root"
-  let allFiles := parseFiles j
-  let isData := entry = "data"
-  let rootJ : Json := (if isData then (allFiles.head?.map (·.2)) else fetch allFiles root).getD Json.null
-  let fs : Files := if isData then allFiles.drop 1 else allFiles
-  let rootData : Option Json := if isData then some rootJ else none
-  let rootCx : Cx := if isData then ⟨none, none⟩ else ⟨some root, some root⟩
-  let rootSrc := if isData then "" else storeKey root
+  let rawLoads : List (String × String) :=
+    match getArr j "loads" with
+    | [] => [(getStr j "entry", getStr j "root")]
+    | ls => ls.map (fun l => (getStr l "entry", getStr l "root"))
+  let short := (getArr j "loads").isEmpty
+  let fileObjs := getArr j "files"
+  let isVirtual (i : Nat) (f : Json) : Bool := getBool f "virtual" || (short && i == 0 && getStr j "entry" = "data")
+  let allFiles : List (String × Json × Bool) :=
+    (fileObjs.zipIdx).map (fun (f, i) => (storeKey (getStr f "path"), getD f "json" Json.null, isVirtual i f))
+  let fs : Files := (allFiles.filter (fun f => !f.2.2)).map (fun f => (f.1, f.2.1))
+  let dataRoot : Option String := (rawLoads.find? (·.1 = "data")).map (·.2)
+  let rootData : Option Json := dataRoot.bind (fun r =>
+    ((allFiles.find? (fun f => f.2.2 && (short || f.1 = storeKey r))).map (·.2.1)))
+  let loads : List LoadReq := rawLoads.map (fun (entry, root) =>
+    if entry = "data" then ⟨entry, root, ⟨none, none⟩, "", rootData.getD Json.null⟩
+    else ⟨entry, root, ⟨some root, some root⟩, storeKey root, (fetch fs root).getD Json.null⟩)
   let tabs := mkTabs fs rootData
-  let b := build fs rootData tabs rootCx rootSrc rootJ
+  let b := build fs rootData tabs (loads.map (fun l => (l.cx, l.src, l.j)))
   let w := b.world
-  -- fuel: the bound of `load_terminates` ((#texts + 1) · (R + 1)); rank of an object = R − depth of its pointer
+  -- fuel: the bound of `load_terminates` ((#keys + 1) · (R + 1)); rank of an object = R − depth of its pointer
   -- (the children of a value lie strictly deeper), R = the deepest pointer
   let depthMax := b.nodes.foldl (fun m n => max m n.ptr.length) 0
-  let fuel := (b.texts.length + 1) * (depthMax + 1)
-  let res := load w fuel 0
-  let topIds : List Obj := (docAll rootJ).filterMap (fun ch => findObj b.nodes rootCx rootSrc ch.toks ch.kind false)
-  let (outcome, refs, nback, foreign, tclash, nnil, nskip, nempty) := match res with
-    | .ok s => ("ok", reach b s 4000 topIds [] [], s.nback, s.foreign, s.tclash, s.nnil, s.nskip, s.nempty)
-    | .err fl => ("err", [], 0, fl.foreign, fl.tclash, 0, 0, 0)
-    | .outOfFuel => ("outOfFuel", [], 0, false, false, 0, 0, 0)
-  -- specification
-  let specRefs := specWalk fs rootData tabs 4000
-    ((specDocChildren rootJ).map (fun c => ((if isData then none else some (storeKey root)), c.kind, c.j, c.toks.getLast?.getD ""))) (if isData then [] else [storeKey root]) []
-  let specOK := specRefs.all (·.2.isSome)
-  -- exclusion classes
+  let nkeys := (dedup ((b.nodes.filter (·.ref.isSome)).map (fun n => (kindStr n.kind, n.ref.getD "")))).length
+  let fuel := (nkeys + 1) * (depthMax + 2)
+  -- static facts about the references of the history
   let refNodes := b.nodes.filter (fun n => n.ref.isSome && !n.copy && n.nat)
   -- one step of every reference, evaluated at home (computed once)
   let stepsAtHome : List StepR := refNodes.map (fun n => stepGo fs rootData tabs n.cx (n.ref.getD "") n.kind)
@@ -183,21 +192,12 @@ def handle (j : Json) : Json :=
   let stepKey (r : StepR) : String := match r with
     | .node cx _ src ptr _ _ => s!"{repr cx}|{src}|{ptr}"
     | .fail => "fail" | .empty => "empty"
-  -- #29: the model's own flag — a callback fired for a reference whose one-step target differs from the visitor's
-  -- (`textsShared`: the static over-approximation, reported as a branch only)
   let keyed : List (CNode × String) := (refNodes.zip stepsAtHome).map (fun (n, r) => (n, stepKey r))
   let textsShared := keyed.any (fun (a, ka) => keyed.any (fun (c, kc) =>
     a.ref == c.ref && a.kind == c.kind && ka != kc))
-  let textNotGlobal := tclash
-  -- a04fe6c: a callback that meets a value of another kind returns; when the load then succeeds the
-  -- component of that callback may be left without value although its reference is of the wrong kind
-  let kindClash := outcome == "ok" && nskip > 0
   let targetIsRef (n : CNode) : Bool := match stepOf n with
     | .node _ home src ptr _ _ => b.nodes.any (fun m => m.cx == home && m.src == src && m.ptr == ptr && m.kind == n.kind && m.ref.isSome && !m.copy)
     | _ => false
-  -- #34: `unvisitRef` with a nil value (a pure `$ref` cycle) or a swallowed `errMUST…` (the fragment `#`) — the
-  -- events that, with `nskip`, make up the hypothesis `Clean` of the completeness theorem
-  let degenerate := outcome == "ok" && (nnil > 0 || nempty > 0)
   let specStepKey (n : CNode) : String :=
     match stepSpec fs rootData (if n.src = "" then none else some n.src) (n.ref.getD "") with
     | some (file, toks, v) =>
@@ -214,25 +214,57 @@ def handle (j : Json) : Json :=
   let otherDisagree := disagree.any (fun n =>
     !(match stepOf n with | .empty => true | _ => false) &&
     !((n.ref.getD "").startsWith "#" && n.cx.doc != n.cx.path))
-  let excl :=
-    (if textNotGlobal then ["TextNotGlobal"] else []) ++ (if kindClash then ["KindClashUnresolved"] else []) ++
-    (if degenerate then ["DegenerateTarget"] else []) ++
+  let nullMember := b.nodes.any (·.empty)
+  -- the loads, one after the other, each from the state the previous one left
+  let step (acc : St × List (Json × Json × List String × List String)) (ld : LoadReq) : St × List (Json × Json × List String × List String) :=
+    let (st, out) := acc
+    let rootIdx := (idxOf b.cxs ld.cx).getD 0
+    let res := loadEntry w fuel ⟨rootIdx, ld.entry != "data", true⟩ st
+    let topIds : List Obj := (docAll ld.j).filterMap (fun ch => findObj b.nodes ld.cx ld.src ch.toks ch.kind false)
+    let (outcome, refs, s') := match res with
+      | .ok s => ("ok", reach b s 4000 topIds [] [], s)
+      | .err _ s => ("err", [], s)
+      | .outOfFuel => ("outOfFuel", [], st)
+    -- the specification looks at this load alone
+    let isData := ld.entry = "data"
+    let specRefs := specWalk fs rootData tabs 4000
+      ((specDocChildren ld.j).map (fun c => ((if isData then none else some (storeKey ld.root)), c.kind, c.j, c.toks.getLast?.getD "")))
+      (if isData then [] else [storeKey ld.root]) []
+    let specOK := specRefs.all (·.2.isSome)
+    let ok := outcome == "ok"
+    -- exclusion classes: the negated hypotheses of the partial theorems, as this load's run raised them
+    let excl :=
+      (if s'.tclash then ["TextNotGlobal"] else []) ++
+      (if ok && (s'.nnil > 0 || s'.nempty > 0) then ["DegenerateTarget"] else []) ++
+      (if ok && s'.nswallow > 0 then ["NullMemberSwallowed"] else []) ++
+      (if s'.stale then ["StaleDocumentCache"] else []) ++
+      (if s'.foreign then ["ForeignContext"] else [])
+    let branches :=
+      (if s'.nback > 0 then ["backtrack"] else []) ++
+      (if s'.nnil > 0 then ["unvisit.nil"] else []) ++
+      (if s'.nempty > 0 then ["empty.swallowed"] else []) ++
+      (if s'.nswallow > 0 then ["nullMember.swallowed"] else []) ++
+      (if s'.stale then ["cache.hit.fromEarlierLoad"] else []) ++
+      (if !ok then ["outcome." ++ outcome] else []) ++ ["entry." ++ ld.entry]
+    (s', out ++ [(jobj [("outcome", Json.str outcome), ("refs", groupRefs refs)],
+                  jobj [("ok", Json.bool specOK), ("malformed", Json.bool nullMember),
+                        ("refs", Json.mkObj (specRefs.map (fun (r, v) => (r, v.getD Json.null))))],
+                  excl, branches)])
+  let (_, perLoad) := loads.foldl step (({} : St), [])
+  let excl := dedup (perLoad.flatMap (·.2.2.1)) ++
     (if internalInElem then ["InternalRefInElementFile"] else []) ++
-    (if foreign then ["ForeignContext"] else []) ++
     (if otherDisagree then ["StepDisagree"] else [])
   -- branches
   let texts := refNodes.filterMap (·.ref)
   let isUntyped (n : CNode) : Bool := match stepOf n with | .node _ _ _ ptr false _ => !ptr.isEmpty | _ => false
+  let outcomes := perLoad.map (fun p => getStr p.1 "outcome")
   let branches :=
     (if texts.any (·.startsWith "#") then ["ref.internal"] else []) ++
     (if texts.any (fun t => !(t.startsWith "#") && t.contains '#') then ["ref.external.fragment"] else []) ++
     (if texts.any (fun t => !(t.contains '#')) then ["ref.wholefile"] else []) ++
     (if refNodes.any targetIsRef then ["chain"] else []) ++
-    (if nback > 0 then ["backtrack"] else []) ++
     (if textsShared then ["text.sharedByTwoTargets"] else []) ++
-    (if nnil > 0 then ["unvisit.nil"] else []) ++
-    (if nskip > 0 then ["callback.otherKind"] else []) ++
-    (if nempty > 0 then ["empty.swallowed"] else []) ++
+    (if nullMember then ["nullMember"] else []) ++
     (if b.cxs.length > 1 then ["ctx.many"] else []) ++
     (if b.cxs.any (fun c => c.doc != c.path) then ["ctx.element"] else []) ++
     (if refNodes.any isUntyped then ["untyped.codec"] else []) ++
@@ -240,11 +272,16 @@ def handle (j : Json) : Json :=
     (if texts.any (fun t => (t.splitOn "..").length > 1) then ["path.dotdot"] else []) ++
     (if texts.any (fun t => t.startsWith "/" || t.startsWith "./" || (t.splitOn "//").length > 1) then ["path.spelling"] else []) ++
     (dedup (refNodes.map (fun n => "kind." ++ kindStr n.kind))) ++
-    (if outcome != "ok" then ["outcome." ++ outcome] else []) ++
+    (if loads.length > 1 then ["history." ++ ".".intercalate outcomes] else []) ++
+    dedup (perLoad.flatMap (·.2.2.2)) ++
     excl.map (fun e => "excl." ++ e)
+  let lastM := (perLoad.getLast?.map (·.1)).getD Json.null
+  let lastS := (perLoad.getLast?.map (·.2.1)).getD Json.null
   jobj [
-    ("model", jobj [("outcome", Json.str outcome), ("refs", groupRefs refs)]),
-    ("spec", jobj [("ok", Json.bool specOK), ("refs", Json.mkObj (specRefs.map (fun (r, v) => (r, v.getD Json.null))))]),
+    ("model", jobj [("outcome", getD lastM "outcome" Json.null), ("refs", getD lastM "refs" Json.null),
+                    ("loads", Json.arr (perLoad.map (·.1)).toArray)]),
+    ("spec", jobj [("ok", getD lastS "ok" Json.null), ("refs", getD lastS "refs" Json.null),
+                   ("loads", Json.arr (perLoad.map (·.2.1)).toArray)]),
     ("excl", jstrs excl),
     ("fuel", Json.num (JsonNumber.fromNat fuel)),
     ("dbg", jstrs (disagree.map (fun n => s!"{n.ref.getD ""} @{n.src} go={goStepKey n} spec={specStepKey n}"))),
